@@ -392,6 +392,10 @@ def core_specs(P: str = "U", variant: int = 0) -> list[CS]:
             body="    def __len__(self):\n        return len(self.elems)\n\n    def __iter__(self):\n        return iter(self.elems)\n\n    def __contains__(self, x):\n        return any(x is e for e in self.elems)\n",
         ),
         CS(f"{P}Hold", (E,), F(FS("blk", "child", f"{P}Coll", "one", (f"{P}Coll",)), FS("alt", "child", f"{P}Coll | None", "opt", (f"{P}Coll",), default="None"))),
+        # nested tuple values (where the nesting opens and closes is part of the value)
+        CS(f"{P}Nested", (E,), F(FS("tt", "prop", "tuple[Any, ...]", "nested", default="()"), FS("kid", "child", f"{E} | None", "opt", (E,), default="None"))),
+        # field names that are also names of parameters / locals inside the library
+        CS(f"{P}Attr", (E,), F(FS("node", "child", f"{E} | None", "opt", (E,), default="None"), FS("changes", "child", f"tuple[{E}, ...]", "tuple", (E,), default="()"), FS("visitor", "prop", "str", "str", default='""'), FS("cls", "prop", "int", "int", default="0"))),
         # field names that differ only in case (properties and children)
         CS(f"{P}CaseTwin", (E,), F(FS("x", "prop", "int", "int", default="0"), FS("X", "prop", "int", "int", default="0"), FS("n", "child", f"{E} | None", "opt", (E,), default="None"), FS("N", "child", f"{E} | None", "opt", (E,), default="None"))),
         # an IntFlag-valued property
